@@ -431,6 +431,22 @@ type Env struct {
 	ExtraCB []string
 	ExtraPB []string
 	nViol   map[string]int
+	held    []heldRes // results of earlier FilterCmdKey calls, kept by "the caller" across later calls (aliasing monitor)
+}
+
+// heldRes: a result FilterCmdKey returned, the slice itself and a deep copy taken at that moment
+type heldRes struct {
+	out  [][]byte
+	snap [][]byte
+	line string
+}
+
+func deepCopy(a [][]byte) [][]byte {
+	o := make([][]byte, len(a))
+	for i := range a {
+		o[i] = append([]byte{}, a[i]...)
+	}
+	return o
 }
 
 // Eff is the rule set the property speaks about for this mode.
@@ -528,6 +544,30 @@ func (e *Env) OpFck(c Cfg, f Filter, cmd string, args [][]byte) {
 	}
 	line := e.head("fck", c) + " " + vfutil.HexS(cmd) + " " + ArgList(args)
 	out, rej, pan := safeFilterCmdKey(f, cmd, in)
+	if pan == "" {
+		// the caller's arguments are not rewritten in place
+		if !eqArgs(in, args) {
+			e.violate("FilterCmdKey-mutates-args", fmt.Sprintf("FilterCmdKey(%q, %q) changed the caller's argument slice to %q", cmd, args, in),
+				e.replay(c, map[string]interface{}{"op": line, "cmd": cmd, "args": ArgList(args), "after": ArgList(in)}))
+		}
+		// what earlier calls returned is still what they returned (the sender queues it): a result built in a buffer the
+		// filter reuses would change under the holder
+		for _, h := range e.held {
+			if !eqArgs(h.out, h.snap) {
+				e.violate("FilterCmdKey-alias", fmt.Sprintf("a result FilterCmdKey returned earlier (%s -> %q) reads %q after the later call %s: the returned slice is not the caller's alone", h.line, h.snap, h.out, line),
+					e.replay(c, map[string]interface{}{"op": h.line, "later_op": line, "returned": ArgList(h.snap), "now": ArgList(h.out)}))
+				e.held = nil
+				break
+			}
+		}
+		if !rej && len(out) != len(in) {
+			if len(e.held) >= 6 {
+				e.held = e.held[1:]
+			}
+			e.held = append(e.held, heldRes{out, deepCopy(out), line})
+			e.S.Count("fck_held_projection")
+		}
+	}
 	if pan != "" {
 		// the process would have died: nothing is filtered "exactly" any more
 		e.S.Op(line, "panic")
@@ -1223,6 +1263,7 @@ func (e *Env) RunGenerated(r *vfutil.Rand, nCfg, nKey, nCmd int) {
 		eff := e.Eff(c)
 		e.S.Count("cfg")
 		e.S.Count(fmt.Sprintf("cfg_ranges_%d", vfutil.Min(len(c.SW)+len(c.SB), 8)))
+		e.CountCfg(c)
 		e.OpRanges(c, f)
 		for j := 0; j < nKey; j++ {
 			e.OpKey(c, f, GenKey(r, eff))
@@ -1409,6 +1450,133 @@ func (e *Env) EdgeSlots() {
 			e.OpFck(c, f, "mset", [][]byte{other, []byte("1"), k, []byte("2")})
 			e.OpFck(c, f, "rename", [][]byte{k, other})
 			e.S.Count("edge_slot_ops")
+		}
+	}
+}
+
+func sz(n int) string {
+	switch {
+	case n == 0:
+		return "0"
+	case n == 1:
+		return "1"
+	}
+	return "many"
+}
+
+// CountCfg: one coverage counter per list and size class, and per degenerate entry kind
+func (e *Env) CountCfg(c Cfg) {
+	e.S.Count("cfg_cmdBlacklist_" + sz(len(c.CB)))
+	e.S.Count("cfg_cmdWhitelist_" + sz(len(c.CW)))
+	e.S.Count("cfg_dbBlacklist_" + sz(len(c.DB)))
+	e.S.Count("cfg_prefixWhitelist_" + sz(len(c.PW)))
+	e.S.Count("cfg_prefixBlacklist_" + sz(len(c.PB)))
+	e.S.Count("cfg_slotWhitelist_" + sz(len(c.SW)))
+	e.S.Count("cfg_slotBlacklist_" + sz(len(c.SB)))
+	for _, l := range [][]string{c.PW, c.PB} {
+		for i, p := range l {
+			if p == "" {
+				e.S.Count("cfg_prefix_emptystring")
+			}
+			for _, b := range []byte(p) {
+				if b >= 0x80 {
+					e.S.Count("cfg_prefix_nonascii")
+					break
+				}
+			}
+			for j, q := range l {
+				if i != j && p != "" && strings.HasPrefix(q, p) {
+					e.S.Count("cfg_prefix_of_another")
+				}
+			}
+		}
+	}
+	for _, l := range [][]string{c.CB, c.CW} {
+		for _, p := range l {
+			if p == "" {
+				e.S.Count("cfg_cmdname_emptystring")
+			}
+		}
+	}
+	for _, l := range [][][]uint16{c.SW, c.SB} {
+		for _, en := range l {
+			switch {
+			case len(en) == 0 || len(en) > 2:
+				e.S.Count("cfg_slotentry_malformed")
+			case len(en) == 1:
+				e.S.Count("cfg_slotentry_single")
+			case en[0] > en[1]:
+				e.S.Count("cfg_slotentry_reversed")
+			case en[0] == en[1]:
+				e.S.Count("cfg_slotentry_onepoint")
+			}
+			if len(en) > 0 && (en[0] == 0 || en[len(en)-1] == 0) {
+				e.S.Count("cfg_slotentry_slot0")
+			}
+			if len(en) > 0 && en[len(en)-1] >= 16383 {
+				e.S.Count("cfg_slotentry_slot16383plus")
+			}
+		}
+	}
+}
+
+// ForcedDims: the degenerate-but-legal corners, FORCED rather than left to the generators (session 5 dimension audit):
+// every list empty / one entry / the same entry twice / entries that are prefixes of one another / the empty string as a
+// prefix and as a command name / non-ASCII prefixes; slot lists with one-point, adjacent, overlapping, reversed, malformed
+// entries and the end slots; commands with NO argument, with the empty key alone and among several keys, with 1000 keys
+// and one rejected key at the front / middle / end, in lower, upper and mixed case.
+func (e *Env) ForcedDims(r *vfutil.Rand) {
+	rej := []byte("bad:1")
+	cfgs := []Cfg{
+		{}, // every list empty
+		{PB: []string{"bad:"}}, {PB: []string{"bad:", "bad:"}}, {PB: []string{"bad", "bad:", "b"}}, {PB: []string{"", "bad:"}}, {PB: []string{""}},
+		{PW: []string{"k"}}, {PW: []string{"", "k"}}, {PW: []string{""}}, {PW: []string{"k", "k:", "ke"}, PB: []string{"k:bad", "bad:"}}, {PW: []string{"\xc3\xa9", "k"}, PB: []string{"\xff", "bad:"}},
+		{CB: []string{""}}, {CB: []string{"", "del"}}, {CB: []string{"del", "DEL", "Del"}}, {CB: []string{"mset"}, PB: []string{"bad:"}},
+		{SB: [][]uint16{{5, 5}}, PB: []string{"bad:"}}, {SB: [][]uint16{{0, 10}, {11, 20}}}, {SB: [][]uint16{{0, 10}, {10, 20}, {5, 15}}}, {SW: [][]uint16{{9, 3}}}, {SW: [][]uint16{{}, {1, 2, 3}}},
+		{SW: [][]uint16{{0, 16383}}, PB: []string{"bad:"}}, {SB: [][]uint16{{16383, 16383}, {0}}, PB: []string{"bad:"}}, {SW: [][]uint16{{0}, {16383}}, SB: [][]uint16{{0}}},
+	}
+	if e.Mode == "F" {
+		cfgs = append(cfgs, Cfg{CW: []string{"set"}}, Cfg{CW: []string{"", "set"}}, Cfg{CW: []string{"set", "setex"}, CB: []string{"setex"}})
+	}
+	names := func(n string) []string { return []string{asciiLower(n), asciiUpper(n), randCase(r, n)} }
+	many := func(n int, at int) [][]byte {
+		a := make([][]byte, n)
+		for i := range a {
+			a[i] = []byte(fmt.Sprintf("k:%d", i))
+		}
+		if at >= 0 {
+			a[at] = rej
+		}
+		return a
+	}
+	for _, c := range cfgs {
+		f := e.Make(c)
+		e.S.Count("forced_cfgs")
+		e.CountCfg(c)
+		for _, k := range [][]byte{{}, []byte("k"), []byte("k:1"), rej, []byte("bad"), []byte("b"), {0xc3, 0xa9, 'x'}, {0xff}, KeyInSlot([]byte("k"), 5, nil), KeyInSlot(nil, 10, nil), KeyInSlot(nil, 11, nil), KeyInSlot([]byte("k"), 16383, nil)} {
+			e.OpKey(c, f, k)
+		}
+		for _, n := range []string{"", "del", "DEL", "dEl", "mset", "MSET", "set", "SETEX", "setex", "sete", "ping"} {
+			e.OpCmd(c, f, n)
+		}
+		for _, base := range []string{"del", "unlink", "mset", "set", "rename", "sunionstore", "exists"} {
+			for _, n := range names(base) {
+				e.OpFck(c, f, n, nil)                                            // no argument at all
+				e.OpFck(c, f, n, [][]byte{{}})                                   // the empty key alone
+				e.OpFck(c, f, n, [][]byte{[]byte("k:1"), {}, []byte("k:2"), {}}) // the empty key among several
+				e.OpFck(c, f, n, [][]byte{rej, {}, []byte("k:2"), []byte("v")})
+				e.S.Count("forced_case_" + map[bool]string{true: "lower", false: "notlower"}[n == asciiLower(n)])
+			}
+		}
+		for _, at := range []int{-1, 0, 499, 998, 999} {
+			e.OpFck(c, f, "DEL", many(1000, at))
+			e.OpFck(c, f, "unlink", many(1000, at))
+			ms := many(2000, -1)
+			if at >= 0 {
+				ms[2*(at/2)] = rej
+			}
+			e.OpFck(c, f, "MsEt", ms)
+			e.S.Count("forced_1000keys")
 		}
 	}
 }
